@@ -197,23 +197,27 @@ func checkC08(c *Ctx) {
 	// two packages with the same name, one's path a suffix of the other's
 	mod["codec/c.go"] = "package codec\n\ntype Frame struct {\n\tID int\n\tBody []byte\n}\n\nfunc e(a, b *Frame) bool { return deriveEqual(a, b) }\n"
 	mod["internal/codec/c.go"] = "package codec\n\ntype Header struct {\n\tK string\n\tV []string\n}\n\nfunc e(a, b *Header) bool { return deriveEqual(a, b) }\n\nfunc c(a *Header) *Header { return deriveClone(a) }\n"
-	pkgs := []string{"a", "px", "d", "z", "both", "only2", "codec", "internal/codec"}
+	// a second package whose pending (second-pass) call is textually identical to z's, and a directory that
+	// holds nothing but an external test package
+	mod["z2/z.go"] = "package z2\n\ntype Z struct{ K map[string]bool }\n\nfunc ks(z *Z) []string { return deriveSort(deriveKeys(z.K)) }\n"
+	mod["itest/itest_test.go"] = "package itest_test\n\nimport \"testing\"\n\nfunc TestNothing(t *testing.T) {}\n"
+	pkgs := []string{"a", "px", "d", "z", "both", "only2", "codec", "internal/codec", "z2"}
 	type variant struct {
 		name string
 		runs [][]string // each inner slice = args of one invocation
 	}
 	var variants []variant
 	variants = append(variants, variant{"dotdotdot", [][]string{{"./..."}}})
-	variants = append(variants, variant{"separate-relative", [][]string{{"./a"}, {"./px"}, {"./d"}, {"./z"}, {"./both"}, {"./only2"}, {"./codec"}, {"./internal/codec"}}})
-	variants = append(variants, variant{"separate-importpath", [][]string{{"scratch/only2"}, {"scratch/z"}, {"scratch/d"}, {"scratch/px"}, {"scratch/a"}, {"scratch/both"}, {"scratch/internal/codec"}, {"scratch/codec"}}})
-	perm := []string{"./a", "./px", "./d", "./z", "./both", "./only2", "./codec", "./internal/codec"}
+	variants = append(variants, variant{"separate-relative", [][]string{{"./a"}, {"./px"}, {"./d"}, {"./z"}, {"./both"}, {"./only2"}, {"./codec"}, {"./internal/codec"}, {"./z2"}}})
+	variants = append(variants, variant{"separate-importpath", [][]string{{"scratch/only2"}, {"scratch/z"}, {"scratch/d"}, {"scratch/px"}, {"scratch/a"}, {"scratch/both"}, {"scratch/internal/codec"}, {"scratch/codec"}, {"scratch/z2"}}})
+	perm := []string{"./a", "./px", "./d", "./z", "./both", "./only2", "./codec", "./internal/codec", "./z2", "./itest"}
 	for i := 0; i < tierN(c, 4, 24); i++ {
 		p := append([]string{}, perm...)
 		r.Shuffle(len(p), func(i, j int) { p[i], p[j] = p[j], p[i] })
 		variants = append(variants, variant{"grouped-order-" + strings.Join(p, ","), [][]string{p}})
 	}
 	for i := 0; i < tierN(c, 3, 12); i++ {
-		p := []string{"scratch/a", "scratch/px", "scratch/d", "scratch/z", "scratch/both", "scratch/only2", "scratch/codec", "scratch/internal/codec"}
+		p := []string{"scratch/a", "scratch/px", "scratch/d", "scratch/z", "scratch/both", "scratch/only2", "scratch/codec", "scratch/internal/codec", "scratch/z2", "scratch/itest"}
 		r.Shuffle(len(p), func(i, j int) { p[i], p[j] = p[j], p[i] })
 		for j := range p {
 			if r.Intn(2) == 0 {
@@ -226,10 +230,10 @@ func checkC08(c *Ctx) {
 		// the loader hands packages over in map order: the same grouped invocation is repeated
 		variants = append(variants, variant{fmt.Sprintf("dotdotdot-repeat-%d", i), [][]string{{"./..."}}})
 	}
-	variants = append(variants, variant{"subset-d-then-rest", [][]string{{"./d"}, {"./px", "./a"}, {"./z", "./both", "./only2"}, {"./internal/codec", "./codec"}}})
-	variants = append(variants, variant{"subset-importpath-pairs", [][]string{{"scratch/px", "scratch/d"}, {"scratch/a", "./z"}, {"scratch/both", "scratch/only2"}, {"scratch/codec", "./internal/codec"}}})
-	variants = append(variants, variant{"samename-pair-both-first", [][]string{{"./a", "./px", "./d", "./z", "./codec", "./internal/codec"}, {"./both", "./only2"}}})
-	variants = append(variants, variant{"samename-pair-only2-first", [][]string{{"./a", "./px", "./d", "./z", "./internal/codec", "./codec"}, {"./only2", "./both"}}})
+	variants = append(variants, variant{"subset-d-then-rest", [][]string{{"./d"}, {"./px", "./a"}, {"./z", "./both", "./only2"}, {"./internal/codec", "./codec"}, {"./z2", "./z", "./itest"}}})
+	variants = append(variants, variant{"subset-importpath-pairs", [][]string{{"scratch/px", "scratch/d"}, {"scratch/a", "./z"}, {"scratch/both", "scratch/only2"}, {"scratch/codec", "./internal/codec"}, {"scratch/z", "scratch/z2"}}})
+	variants = append(variants, variant{"samename-pair-both-first", [][]string{{"./a", "./px", "./d", "./z", "./z2", "./codec", "./internal/codec"}, {"./both", "./only2"}}})
+	variants = append(variants, variant{"samename-pair-only2-first", [][]string{{"./a", "./px", "./d", "./itest", "./z2", "./z", "./internal/codec", "./codec"}, {"./only2", "./both"}}})
 	type vres struct {
 		sums map[string]string
 		outs map[string]string
